@@ -44,6 +44,17 @@ def step (st : St) (op : List String) : St × String :=
       | .error .tooLarge => ({ st with cur := none }, "err-large")
       | .error .tooShort => ({ st with cur := none }, "err-short")
       | .ok c => ({ st with cur := some c }, s!"ok {Driver.bytesToHex c.addr} {c.data.length}")
+  | ["par", k, seed, n] =>
+    -- k concurrent New/Valid rounds on the Go side; any schedule must give these addresses (first 8 bytes)
+    match k.toNat?, seed.toNat?, n.toNat? with
+    | some k, some seed, some n =>
+      let outs := (List.range k).map fun i =>
+        let data := Driver.genBytes (seed + i) (1 + (n + 37 * i) % 4096)
+        match new keccak seg d st.stale data with
+        | .ok c => Driver.bytesToHex (c.addr.take 8)
+        | .error _ => "err"
+      (st, String.intercalate "," outs)
+    | _, _, _ => (st, "bad-op")
   | ["set", addr, src] =>
     match Driver.hexToBytes addr, Driver.parseSrc src with
     | some a, some p => ({ st with cur := some { addr := a, data := p } }, "ok")
